@@ -8,7 +8,8 @@
 #endif
 
 enum { D_LOCAL = 1, D_GLOBL, D_COMM, D_DATA, D_BSS, D_TDATA, D_TBSS, D_TEXT, D_TYPE_OBJ, D_TYPE_FUNC, D_SIZE, D_ALIGN,
-       D_LABEL, D_ZERO, D_BYTE, D_QUAD, D_OTHER };
+       D_LABEL, D_ZERO, D_BYTE, D_QUAD, D_OTHER,
+       A_LOCAL, A_VLA, A_RIP, A_GOT, A_TLSGD, A_TLSCALL, A_FS, A_TPOFF };
 #define MAXEV 24
 static struct { int d; const char *s; long a, b; } ev[MAXEV];
 static int nev;
@@ -36,6 +37,14 @@ static int verif_record(const char *fmt, va_list ap) {
   else if (fmt_is(fmt, "  .align %d")) { d = D_ALIGN; a = va_arg(ap, int); }
   else if (fmt_is(fmt, "%s:")) { d = D_LABEL; s = va_arg(ap, char *); }
   else if (fmt_is(fmt, "  .zero %d")) { d = D_ZERO; a = va_arg(ap, int); }
+  else if (fmt_is(fmt, "  lea %d(%%rbp), %%rax")) { d = A_LOCAL; a = va_arg(ap, int); }
+  else if (fmt_is(fmt, "  mov %d(%%rbp), %%rax")) { d = A_VLA; a = va_arg(ap, int); }
+  else if (fmt_is(fmt, "  lea %s(%%rip), %%rax")) { d = A_RIP; s = va_arg(ap, char *); }
+  else if (fmt_is(fmt, "  mov %s@GOTPCREL(%%rip), %%rax")) { d = A_GOT; s = va_arg(ap, char *); }
+  else if (fmt_is(fmt, "  data16 lea %s@tlsgd(%%rip), %%rdi")) { d = A_TLSGD; s = va_arg(ap, char *); }
+  else if (fmt_is(fmt, "  call __tls_get_addr@PLT")) d = A_TLSCALL;
+  else if (fmt_is(fmt, "  mov %%fs:0, %%rax")) d = A_FS;
+  else if (fmt_is(fmt, "  add $%s@tpoff, %%rax")) { d = A_TPOFF; s = va_arg(ap, char *); }
 #ifdef NATIVE
   else if (fmt_is(fmt, "  .byte %d")) { d = D_BYTE; a = va_arg(ap, int); }
 #else
@@ -67,6 +76,7 @@ static int verif_record(const char *fmt, va_list ap) {
 
 struct IN_t {
   unsigned char is_static, is_tentative, is_tls, has_init, is_array, fcommon, align_log, is_definition, is_live;
+  unsigned char is_local, is_func, is_vla, fpic;
   unsigned char size;
   signed char init[4];
 } IN;
@@ -145,5 +155,37 @@ void h_emit_text(void) {
     VASSERT(ev[1].d == D_TEXT && ev[2].d == D_TYPE_FUNC && ev[3].d == D_LABEL && ev[3].s == name, ".text, @function type, label");
     VASSERT(count_ev(D_LOCAL) + count_ev(D_GLOBL) == 1, "exactly one binding directive");
   }
+  VCOVER();
+}
+
+
+// Address formation (gen_addr, ND_VAR) for a symbolic object x -fPIC. Reference from the psABI / ELF rules the
+// property names: a local object is addressed off the frame pointer; in position-independent code every symbol that
+// is not local to the function goes through the GOT (it may be preempted / live in another DSO: `lea sym(%rip)` gives
+// an R_X86_64_PC32 relocation that ld rejects in a shared object), thread-local objects through __tls_get_addr
+// (general dynamic); in non-PIC code objects and functions DEFINED in the unit are RIP-relative, a function only
+// declared goes through the GOT, thread-local objects use the local-exec form (%fs:0 + sym@tpoff).
+void h_gen_addr(void) {
+  HAVOC_IN();
+  __CPROVER_assume(IN.is_local <= 1 && IN.is_func <= 1 && IN.is_vla <= 1 && IN.fpic <= 1 && IN.is_tls <= 1 && IN.is_definition <= 1 && IN.is_static <= 1);
+  // representation invariants of parse.c: only objects are local / VLA / thread-local; a VLA is local
+  __CPROVER_assume(!(IN.is_func && (IN.is_local || IN.is_vla || IN.is_tls)) && (!IN.is_vla || IN.is_local) && !(IN.is_local && IN.is_tls));
+  static Type ty, fty; static Obj var; static Node node; static Token tok; static File file;
+  ty.kind = IN.is_vla ? TY_VLA : TY_INT; ty.size = 4; ty.align = 4;
+  fty.kind = TY_FUNC; fty.size = 1; fty.align = 1;
+  var.name = name; var.ty = IN.is_func ? &fty : &ty; var.is_local = IN.is_local; var.offset = -24; var.is_tls = IN.is_tls;
+  var.is_function = IN.is_func; var.is_definition = IN.is_definition; var.is_static = IN.is_static;
+  tok.file = &file; node.kind = ND_VAR; node.var = &var; node.ty = var.ty; node.tok = &tok;
+  opt_fpic = IN.fpic;
+  nev = 0;
+  gen_addr(&node);
+  VASSERT(nev >= 1 && nev <= 4, "one addressing sequence");
+  if (IN.is_vla) VASSERT(nev == 1 && ev[0].d == A_VLA && ev[0].a == -24, "a VLA designates the block its hidden pointer points to");
+  else if (IN.is_local) VASSERT(nev == 1 && ev[0].d == A_LOCAL && ev[0].a == -24, "a local object is addressed off the frame pointer");
+  else if (IN.fpic && IN.is_tls) VASSERT(count_ev(A_TLSGD) == 1 && count_ev(A_TLSCALL) == 1 && ev[0].s == name, "-fPIC thread-local: general-dynamic sequence through __tls_get_addr");
+  else if (IN.fpic) VASSERT(nev == 1 && ev[0].d == A_GOT && ev[0].s == name, "-fPIC: every non-local symbol (object or function, defined here or not) is addressed through the GOT");
+  else if (IN.is_tls) VASSERT(nev == 2 && ev[0].d == A_FS && ev[1].d == A_TPOFF && ev[1].s == name, "non-PIC thread-local: %fs:0 + sym@tpoff");
+  else if (IN.is_func && !IN.is_definition) VASSERT(nev == 1 && ev[0].d == A_GOT && ev[0].s == name, "non-PIC: a function that is only declared may live in a shared object: GOT");
+  else VASSERT(nev == 1 && ev[0].d == A_RIP && ev[0].s == name, "non-PIC: objects and functions of this unit are RIP-relative");
   VCOVER();
 }
